@@ -103,5 +103,11 @@ func Corpus() []*Schema {
 		{Name: "H", Ext: []F{{"x_uint32", 100, "uint32", "ext:Base"}}}}})
 	cs = append(cs, &Schema{ID: "extsfixed", Syntax: "proto2", Messages: []M{{Name: "Base", Fields: []F{{"id", 1, "int32", "opt"}}, Ranges: [][2]int32{{100, 200}}},
 		{Name: "H", Ext: []F{{"x_sfixed32", 100, "sfixed32", "ext:Base"}, {"x_sfixed64", 101, "sfixed64", "ext:Base"}}}}})
+	// extensions declared at file level and inside a nested message (the other two places the language allows)
+	cs = append(cs, &Schema{ID: "extscope", Syntax: "proto2",
+		Messages: []M{{Name: "Base", Fields: []F{{"id", 1, "int32", "opt"}}, Ranges: [][2]int32{{100, 200}}},
+			{Name: "Outer", Fields: []F{{"n", 1, "int32", "opt"}}, Nested: []M{{Name: "In", Fields: []F{{"s", 1, "string", "opt"}},
+				Ext: []F{{"x_nested", 101, "string", "ext:Base"}}}}}},
+		FileExt: []F{{"x_top", 100, "int64", "ext:Base"}, {"x_top_msg", 102, "msg:Outer", "ext:Base"}}})
 	return cs
 }
